@@ -5,6 +5,7 @@ CONSTANTS
   OORD <- c_OORD
   REGOPS = {"o1", "o2", "o3"}
   VAL <- c_VAL
+  VALT <- c_VALT
   PREC = 1
   U64 = 1073741824
   EPOCH0 <- c_EPOCH0
